@@ -389,7 +389,7 @@ PLANS["C10"] = dict(
     phases=[dict(
         name="loop",
         gen=dict(module="MC_Notation_C10",
-                 cfg=lambda tier, seed: mc_cfg(["Inv_C10", "Inv_Bounded", "Inv_Emit"], consts=["MaxLen = 6" if tier == "thorough" else "MaxLen = 4", "MaxN = 7" if tier == "thorough" else "MaxN = 5"],
+                 cfg=lambda tier, seed: mc_cfg(["Inv_C10", "Inv_Bounded", "Inv_Emit"], consts=["MaxLen = 5" if tier == "thorough" else "MaxLen = 4", "MaxN = 6" if tier == "thorough" else "MaxN = 5"],
                                                extra=["PROPERTY Prop_ProcessedMonotone"]),
                  select=slicer(400000)),
         drive=dict(driver="notation-verify"),
